@@ -14,11 +14,11 @@ well-formed graph: each canonical identity is one node (`dedup`), and a node's i
 signature edges are exactly what its file says. -/
 def load_spec : Prop :=
   ∀ (w : World) (root : Nat) (g : Graph) (r : Nat),
-    (∀ f spec, w[f]? = some spec → (∀ t ∈ spec.imports, ∀ x, t = some x → x < w.length) ∧
+    (∀ (f : Nat) (spec : FileSpec), w[f]? = some spec → (∀ t ∈ spec.imports, ∀ x, t = some x → x < w.length) ∧
        (∀ c, spec.companion = some c → c < w.length)) →
     loadFile w (w.length + 1) {} root = .ok (g, r) →
     g.Wf ∧ (g.sources.map (·.file)).Nodup ∧ (g.sources[r]?.map (·.file)) = some root ∧
-    ∀ s n, g.sources[s]? = some n → ∃ spec, w[n.file]? = some spec ∧
+    ∀ (s : Nat) (n : Node), g.sources[s]? = some n → ∃ spec, w[n.file]? = some spec ∧
       (n.imports.map fun i => (g.imports[i]?.bind fun e => g.sources[e.2]?.map (·.file))) =
         spec.imports ∧
       (n.signature.bind fun t => g.sources[t]?.map (·.file)) = spec.companion
@@ -27,7 +27,7 @@ def load_spec : Prop :=
 an importer. -/
 def load_total : Prop :=
   ∀ (w : World) (root : Nat) (e : LoadError),
-    (∀ f spec, w[f]? = some spec → (∀ c, spec.companion = some c → c < w.length)) →
+    (∀ (f : Nat) (spec : FileSpec), w[f]? = some spec → (∀ c, spec.companion = some c → c < w.length)) →
     root < w.length →
     loadFile w (w.length + 1) {} root = .error e → ∃ f pos, e = .missingImport f pos
 
